@@ -235,6 +235,87 @@ func runC02(c *Ctx) {
 			}
 		}
 	}
+	// 2b. consistent framing, inconsistent content: every prefix of a valid RDATA with RDLENGTH set to match
+	//     (a plain truncation of the message never reaches the per-type / per-option length handling)
+	for k := 0; k < c.Scale(3, 40); k++ {
+		for _, typ := range types {
+			g := genRR(r, typ, r.Intn(3), r.Bool())
+			step := 1
+			if len(g.Rdata) > 96 {
+				step = len(g.Rdata)/96 + 1
+			}
+			for cut := 0; cut < len(g.Rdata); cut += step {
+				w := assembleRR(g.Owner, g.Type, g.Class, g.TTL, g.Rdata[:cut])
+				h := buildMsgWire(1, 0x8000, nil, nil, nil, nil)
+				h[7] = 1
+				c02Msg(c, "rdata-prefix", append(h, w...), false)
+				c02Other(c, "rdata-prefix", w, 0)
+			}
+		}
+	}
+	// 2c. type-length-value sub-structures: every EDNS0 option code and SVCB key with every small length,
+	//     APL items with every address length; RDLENGTH and option lengths consistent
+	fill := func(n int) []byte {
+		switch r.Intn(3) {
+		case 0:
+			return make([]byte, n)
+		case 1:
+			b := make([]byte, n)
+			for i := range b {
+				b[i] = 0xFF
+			}
+			return b
+		}
+		return r.Bytes(n)
+	}
+	one := func(stream string, typ uint16, owner [][]byte, class uint16, ttl uint32, rd []byte) {
+		w := assembleRR(owner, typ, class, ttl, rd)
+		h := buildMsgWire(1, 0x8000, nil, nil, nil, nil)
+		h[11] = 1
+		c02Msg(c, stream, append(h, w...), false)
+		c02Other(c, stream, w, 0)
+	}
+	codes := []int{65001, 65534, 65535, 4242}
+	for code := 0; code <= 24; code++ {
+		codes = append(codes, code)
+	}
+	for _, code := range codes {
+		for n := 0; n <= 40; n++ {
+			opt := putUint(putUint(nil, 2, uint64(code)), 2, uint64(n))
+			opt = append(opt, fill(n)...)
+			one("tlv-lengths", dns.TypeOPT, nil, 1232, 0, opt)
+			if n%5 == 0 {
+				// after / before another option
+				other := []byte{0, 10, 0, 8, 1, 2, 3, 4, 5, 6, 7, 8}
+				one("tlv-lengths", dns.TypeOPT, nil, 1232, 0, append(append([]byte{}, other...), opt...))
+				one("tlv-lengths", dns.TypeOPT, nil, 1232, 0, append(append([]byte{}, opt...), other...))
+			}
+		}
+	}
+	for _, typ := range []uint16{dns.TypeSVCB, dns.TypeHTTPS} {
+		keys := []int{65535, 65280, 4242}
+		for key := 0; key <= 12; key++ {
+			keys = append(keys, key)
+		}
+		for _, key := range keys {
+			for n := 0; n <= 40; n++ {
+				rd := append(putUint(nil, 2, 1), 0) // priority 1, target "."
+				rd = putUint(putUint(rd, 2, uint64(key)), 2, uint64(n))
+				rd = append(rd, fill(n)...)
+				one("tlv-lengths", typ, [][]byte{[]byte("s")}, 1, 1, rd)
+			}
+		}
+	}
+	for fam := 0; fam <= 3; fam++ {
+		for alen := 0; alen <= 20; alen++ {
+			for _, neg := range []byte{0, 0x80} {
+				rd := putUint(nil, 2, uint64(fam))
+				rd = append(rd, byte(r.Intn(140)), neg|byte(alen))
+				rd = append(rd, fill(alen)...)
+				one("tlv-lengths", dns.TypeAPL, [][]byte{[]byte("a")}, 1, 1, rd)
+			}
+		}
+	}
 	// 3. pointer graphs
 	for i := 0; i < c.Scale(3000, 60000); i++ {
 		msg := genHostileNameMsg(r)
